@@ -33,6 +33,14 @@ from qv import poly as P
 from qv import ref, stubs
 from qv.harness import obligation, Skip
 
+# Obligations run inside daemonic worker processes, which may not create a process pool: tell
+# cotengra's path hyper-optimiser (reached through optimize='auto' / 'auto-hq' on networks of
+# >= ~12 tensors) that it already is a worker, so that it searches serially.  Only the search
+# for a contraction order is affected, never the value contracted.
+import cotengra.parallel as _ctg_parallel  # noqa: E402
+
+_ctg_parallel._IS_WORKER = True
+
 PROP = "C09"
 META = {
     "bounds": {
@@ -97,8 +105,12 @@ def _labels(i, L, cyclic, op=False):
 
 
 def _site_shape(i, L, D, dims, cyclic, layout):
-    sz = {"l": _bd(D, (i - 1) % L), "r": _bd(D, i), "p": dims[i], "u": dims[i], "d": dims[i]}
     lab = _labels(i, L, cyclic, op="u" in layout)
+    sz = {"p": dims[i], "u": dims[i], "d": dims[i]}
+    if "l" in lab:
+        sz["l"] = _bd(D, (i - 1) % L)
+    if "r" in lab:
+        sz["r"] = _bd(D, i)
     return tuple(sz[c] for c in layout if c in lab)
 
 
@@ -865,8 +877,8 @@ _EXPEC = [
     {"L": 3, "D": 2, "dims": (2, 2, 2), "cyclic": True},
     {"L": 3, "D": (1, 2, 2), "dims": (2, 3, 2), "cyclic": False, "_tiers": _T},
     {"L": 2, "D": 2, "dims": (2, 2), "cyclic": False, "_tiers": _T},
-    {"L": 4, "D": 2, "dims": (2, 2, 2, 2), "cyclic": False, "_tiers": _T},
-    {"L": 4, "D": 2, "dims": (2, 2, 2, 2), "cyclic": True, "_tiers": _T},
+    {"L": 4, "D": (2, 1, 2), "dims": (2, 2, 2, 2), "cyclic": False, "_tiers": _T},
+    {"L": 4, "D": (2, 1, 2, 1), "dims": (2, 2, 2, 2), "cyclic": True, "_tiers": _T},
 ]
 
 
@@ -905,8 +917,8 @@ def overlap_expectation(mk, L, D, dims, cyclic):
         O2, O2r = sym_mpo(mk, "Q", L, 1, dims, cyclic, "mixed")
         want2 = inner(va, ref.matmul(MO, ref.matmul(raw_op(O2r, cyclic), vb)))
         mk.eq("expec_TN_1D(a.H, O, Q, b) == <a|O Q|b>", c1.expec_TN_1D(a.H, O, O2, b), want2)
-        al = ag.tensor_network_align(O, O2, trace=True)
-        mk.eq("align(O, Q, trace=True) contracts to tr(O Q)", ref.tn_dense(al[0] | al[1], ()), ref.trace(ref.matmul(MO, raw_op(O2r, cyclic))))
+        al = ag.tensor_network_align(O, O2, ind_ids=["_x{}_"], trace=True)
+        mk.eq("align(O, Q, ind_ids, trace=True) contracts to tr(O Q)", ref.tn_dense(al[0] | al[1], ()), ref.trace(ref.matmul(MO, raw_op(O2r, cyclic))))
     mk.raises("align rejects a vector in the middle of the stack", lambda: ag.tensor_network_align(a, b, a), (ValueError,))
 
 
@@ -1026,3 +1038,539 @@ def partial_trace_to_operator(mk, L, keep, rescale, cyclic, kind):
     full = inner(va, ref.matmul(ref.embed(X, [2] * L, ks), va))
     mk.eq("tr(rho X) == <psi|X (x) 1|psi>", ref.trace(ref.matmul(got, X)), full)
     mk.eq("state untouched", _flat(vdense(a)), va)
+
+
+# ---------------------------------------------------------------------- bipartite Schmidt state
+
+def _stub_syms(prefix):
+    """symbols handed out by the decomposition stubs on this path: {call number: [sym_0, sym_1, ...]}"""
+    out = {}
+    pat = re.compile(rf"^{prefix}(\d+)_(\d+)$")
+    for i, nm in enumerate(P.TAB.names):
+        m = pat.match(nm)
+        if m:
+            out.setdefault(int(m.group(1)), {})[int(m.group(2))] = P._mono(i)
+    return {k: [v[j] for j in sorted(v)] for k, v in out.items()}
+
+
+_BSS = [{"L": L, "sz_a": z, "get": g, "_tiers": _Q if (L == 3 and (g == "ket" or z == 1)) else _T}
+        for (L, z) in ((3, 1), (3, 2), (2, 1), (4, 2)) for g in ("ket", "rho", "ket-dense", "rho-dense")]
+
+
+@obligation(PROP, params=_BSS, rounds=2, timeout_s=400, max_rows=60000)
+def bipartite_schmidt(mk, L, sz_a, get):
+    """bipartite_schmidt_state(sz_a, get) == diag(s) (or its projector) where s are the singular values of the centre
+    matrix of the state brought to mixed canonical form at the cut; chain of certificates: state unchanged, both blocks
+    isometric, SVD taken of the centre matrix, sum s^2 == <psi|psi>  (=> s are the Schmidt coefficients, Schmidt decomposition)"""
+    mk.encodes(c1.MatrixProductState.bipartite_schmidt_state, c1.TensorNetwork1DFlat.singular_values, c1.TensorNetwork1DFlat.canonicalize,
+               tc.Tensor.singular_values)
+    a, Ar = sym_mps(mk, "A", L, 2, None, False, "real")
+    va = raw_vec(Ar)
+    M = va.reshape(2 ** sz_a, -1)
+    p1 = inner(va, va)
+    chi = a.bond_size(sz_a - 1, sz_a)
+    r = a.bipartite_schmidt_state(sz_a, get=get)
+    # --- the values the routine used
+    if mk.sym:
+        fam = _stub_syms("s")
+        s = fam[max(fam)]
+        mk.same("one SVD, of a matrix with chi rows", (stubs.USED.get("linalg.svd"), len(s)), (1, chi))
+        t = a[sz_a]
+        lb = a.bond(sz_a - 1, sz_a)
+        C = t.transpose(lb, *[ix for ix in t.inds if ix != lb]).data.reshape(chi, -1)
+        mk.eq("singular values were taken of the centre matrix (left bond | rest) of the gauged state", stubs.LAST["svd"], C)
+        mk.eq("state unchanged by the gauge transformation", vdense(a), va)
+        canonical_goals(mk, "after the call", a, sz_a)
+    else:
+        s = list(np.linalg.svd(np.asarray(M, dtype=float), compute_uv=False)[:chi])
+    mk.eq("sum s_i^2 == <psi|psi>", _sum(x * x for x in s), p1)
+    k = np.array([[s[i] if i == j else s[i] * 0 for j in range(chi)] for i in range(chi)], dtype=object if mk.sym else float)
+    kv = k.reshape(-1)
+    tol = 1e-7
+    if get == "ket":
+        mk.same("get='ket': tensor over (kA, kB)", (isinstance(r, qtn.Tensor), tuple(r.inds)), (True, ("kA", "kB")))
+        mk.eq("ket == diag(s)", r.data, k, tol=tol)
+    elif get == "ket-dense":
+        mk.same("get='ket-dense': column vector", tuple(r.shape), (chi * chi, 1))
+        mk.eq("ket-dense == vec(diag(s))", np.asarray(r).reshape(-1), kv, tol=tol)
+    else:
+        if get == "rho":
+            mk.same("get='rho': network over (kA, kB, bA, bB)", set(r.outer_inds()), {"kA", "kB", "bA", "bB"})
+            R = ref.tn_dense(r, ("kA", "kB", "bA", "bB")).reshape(chi * chi, chi * chi)
+        else:
+            mk.same("get='rho-dense': matrix", tuple(r.shape), (chi * chi, chi * chi))
+            R = np.asarray(r)
+        mk.eq(f"{get} == |ket><ket| with ket = vec(diag(s))", R, np.array([[x * y for y in kv] for x in kv], dtype=k.dtype), tol=tol)
+    cyc, _ = sym_mps(mk, "C", 3, 1, None, True, "real")
+    mk.raises("periodic states are rejected", lambda: cyc.bipartite_schmidt_state(1), (NotImplementedError,))
+
+
+# ====================================================================================
+# 3. named state / operator generators
+# ====================================================================================
+
+_R2 = 2 ** -0.5
+_VEC = {"0": [1.0, 0.0], "1": [0.0, 1.0], "+": [_R2, _R2], "-": [_R2, -_R2]}
+
+
+def _product_vec(chars):
+    v = np.array([1.0])
+    for c in chars:
+        v = np.kron(v, np.array(_VEC[str(c)]))
+    return v
+
+
+def _basis(L, bits):
+    v = np.zeros(2 ** L)
+    v[int("".join(map(str, bits)), 2)] = 1.0
+    return v
+
+
+@obligation(PROP, params=[{"L": 3}, {"L": 2, "_tiers": _T}, {"L": 4, "_tiers": _T}, {"L": 5, "_tiers": _T}], numeric=False)
+def named_states(mk, L):
+    """constant-table generators (numeric arrays whatever the mode): dense value == the explicit state"""
+    mk.encodes(tb.MPS_computational_state, tb.MPS_neel_state, tb.MPS_ghz_state, tb.MPS_w_state, tb.MPS_zero_state, tb.MPS_COPY,
+               tb.MPS_product_state, c1.MatrixProductState.from_product)
+    out = tuple(f"k{i}" for i in range(L))
+
+    def chk(label, psi, want, Lx=L, bonds=None, dtype=None):
+        mk.same(f"{label}: MPS of length {Lx}", (type(psi) is qtn.MatrixProductState, psi.L), (True, Lx))
+        num_eq(mk, f"{label}: dense value", _flat(vdense(psi, Lx)), want)
+        num_eq(mk, f"{label}: to_dense()", _flat(psi.to_dense()), want)
+        if bonds is not None:
+            mk.same(f"{label}: bond dimension", set(psi.bond_sizes()), {bonds})
+        if dtype is not None:
+            mk.same(f"{label}: dtype", psi.dtype, dtype)
+
+    for bits in itertools.product("01", repeat=L):
+        s = "".join(bits)
+        chk(f"MPS_computational_state('{s}')", qtn.MPS_computational_state(s), _basis(L, bits), bonds=1)
+    s = ("01+-" * L)[:L]
+    chk(f"MPS_computational_state('{s}')", qtn.MPS_computational_state(s), _product_vec(s))
+    if L > 2:
+        chk(f"MPS_computational_state('{s}', cyclic=True)", qtn.MPS_computational_state(s, cyclic=True), _product_vec(s), bonds=1)
+    ints = [i % 2 for i in range(1, L + 1)]
+    chk(f"MPS_computational_state({ints})", qtn.MPS_computational_state(ints), _basis(L, ints))
+    for dt in ("float64", "complex128", "float32", "complex64"):
+        chk(f"MPS_computational_state(dtype={dt})", qtn.MPS_computational_state("10" + "0" * (L - 2), dtype=dt),
+            _basis(L, "10" + "0" * (L - 2)), dtype=dt)
+    up = [i % 2 for i in range(L)]
+    chk("MPS_neel_state", qtn.MPS_neel_state(L), _basis(L, up))
+    chk("MPS_neel_state(down_first=True)", qtn.MPS_neel_state(L, down_first=True), _basis(L, [1 - b for b in up]))
+    ghz = (_basis(L, [0] * L) + _basis(L, [1] * L)) * _R2
+    chk("MPS_ghz_state", qtn.MPS_ghz_state(L), ghz, bonds=2)
+    chk("MPS_ghz_state(dtype=complex128)", qtn.MPS_ghz_state(L, dtype="complex128"), ghz, dtype="complex128")
+    w = sum(_basis(L, [1 if j == i else 0 for j in range(L)]) for i in range(L)) / L ** 0.5
+    chk("MPS_w_state", qtn.MPS_w_state(L), w, bonds=2)
+    for d in (2, 3):
+        copy = np.zeros(d ** L)
+        for x in range(d):
+            copy[sum(x * d ** k for k in range(L))] = 1.0
+        chk(f"MPS_COPY(phys_dim={d})", qtn.MPS_COPY(L, phys_dim=d), copy, bonds=d)
+    for (bd, pd, cyc) in ((1, 2, False), (2, 3, False), (2, 2, True)):
+        if cyc and L < 3:
+            continue
+        z = qtn.MPS_zero_state(L, bond_dim=bd, phys_dim=pd, cyclic=cyc)
+        chk(f"MPS_zero_state(bond_dim={bd}, phys_dim={pd}, cyclic={cyc})", z, np.zeros(pd ** L), bonds=bd)
+        mk.same(f"MPS_zero_state(cyclic={cyc}): cyclic flag", bool(z.cyclic), cyc)
+    mk.same("norms: computational / ghz / w states are normalised",
+            [round(float(abs(p.H @ p)), 12) for p in (qtn.MPS_computational_state("+" * L), qtn.MPS_ghz_state(L), qtn.MPS_w_state(L))], [1.0] * 3)
+
+
+@obligation(PROP, params=[{"L": 3, "cyclic": False}, {"L": 3, "cyclic": True}, {"L": 2, "cyclic": False, "_tiers": _T},
+                          {"L": 4, "cyclic": True, "_tiers": _T}])
+def product_generators(mk, L, cyclic):
+    """MPS_product_state / MPO_product_operator on symbolic single-site factors"""
+    mk.encodes(tb.MPS_product_state, c1.MatrixProductState.from_product, tb.MPO_product_operator)
+    dims = [2, 3, 2, 2][:L]
+    vs = [mk.array(f"v{i}", (dims[i],), "cplx") for i in range(L)]
+    psi = qtn.MPS_product_state(vs, cyclic=cyclic)
+    want = ref.sum_of_products([(v, (f"p{i}",)) for i, v in enumerate(vs)], tuple(f"p{i}" for i in range(L)))
+    mk.same("MPS_product_state: MPS, bond dimension 1", (type(psi) is qtn.MatrixProductState, psi.L, set(psi.bond_sizes()), bool(psi.cyclic)),
+            (True, L, {1}, cyclic))
+    mk.eq("MPS_product_state == v0 (x) v1 (x) ...", vdense(psi), want)
+    mk.eq("from_product(site_ind_id=...)", vdense(qtn.MatrixProductState.from_product(vs, cyclic=cyclic, site_ind_id="q{}"), ind_id="q{}"), want)
+    ops = [mk.array(f"o{i}", (dims[i], dims[i]), "cplx") for i in range(L)]
+    A = qtn.MPO_product_operator(ops, cyclic=cyclic)
+    mk.same("MPO_product_operator: MPO, bond dimension 1", (type(A) is qtn.MatrixProductOperator, A.L, set(A.bond_sizes()), bool(A.cyclic)),
+            (True, L, {1}, cyclic))
+    mk.eq("MPO_product_operator == o0 (x) o1 (x) ...", odense(A), ref.kron(*ops))
+    mk.eq("MPO_product_operator(...).to_dense()", A.to_dense(), ref.kron(*ops))
+    mk.eq("product operator applied to product state == product of (o_i v_i)", _flat(vdense(A.apply(psi))),
+          _flat(ref.sum_of_products([(ref.matmul(o, v), (f"p{i}",)) for i, (o, v) in enumerate(zip(ops, vs))], tuple(f"p{i}" for i in range(L)))))
+    if not cyclic:
+        A1 = qtn.MPO_product_operator(ops[:1])
+        mk.same("single-site product operator: L == 1", A1.L, 1)
+        mk.eq("single-site product operator value", odense(A1), ops[0])
+
+
+@obligation(PROP, params=[{"L": 3}, {"L": 2, "_tiers": _T}, {"L": 4, "_tiers": _T}], numeric=False)
+def named_operators(mk, L):
+    """MPO_identity / MPO_zeros and their *_like variants"""
+    mk.encodes(tb.MPO_identity, tb.MPO_zeros, tb.MPO_identity_like, tb.MPO_zeros_like, c1.MatrixProductOperator.identity)
+    for d in (2, 3):
+        for cyc in (False, True):
+            if cyc and L < 3:
+                continue
+            I = qtn.MPO_identity(L, phys_dim=d, cyclic=cyc)
+            mk.same(f"MPO_identity(d={d}, cyclic={cyc}): structure", (type(I) is qtn.MatrixProductOperator, I.L, bool(I.cyclic), set(I.bond_sizes())),
+                    (True, L, cyc, {1}))
+            num_eq(mk, f"MPO_identity(d={d}, cyclic={cyc}) == identity matrix", odense(I), np.eye(d ** L))
+            num_eq(mk, f"MPO_identity(d={d}, cyclic={cyc}).to_dense()", I.to_dense(), np.eye(d ** L))
+            Z = qtn.MPO_zeros(L, phys_dim=d, cyclic=cyc)
+            mk.same(f"MPO_zeros(d={d}, cyclic={cyc}): structure", (type(Z) is qtn.MatrixProductOperator, Z.L, bool(Z.cyclic)), (True, L, cyc))
+            num_eq(mk, f"MPO_zeros(d={d}, cyclic={cyc}) == zero matrix", odense(Z), np.zeros((d ** L, d ** L)))
+    for dt in ("float64", "complex128", "float32"):
+        mk.same(f"MPO_identity(dtype={dt})", qtn.MPO_identity(L, dtype=dt).dtype, dt)
+    A = qtn.MatrixProductOperator([np.ones(_site_shape(i, L, 2, (3,) * L, False, "lrud")) for i in range(L)], upper_ind_id="x{}", lower_ind_id="y{}",
+                                  site_tag_id="S{}")
+    for label, I in (("MPO_identity_like", qtn.MPO_identity_like(A)), ("mpo.identity()", A.identity())):
+        mk.same(f"{label}: ids, length, phys dim of the model", (I.upper_ind_id, I.lower_ind_id, I.site_tag_id, I.L, I.phys_dim()), ("x{}", "y{}", "S{}", L, 3))
+        num_eq(mk, f"{label} == identity", odense(I, up="x{}", low="y{}"), np.eye(3 ** L))
+    Z = qtn.MPO_zeros_like(A)
+    mk.same("MPO_zeros_like: ids, length", (Z.upper_ind_id, Z.lower_ind_id, Z.L), ("x{}", "y{}", L))
+    num_eq(mk, "MPO_zeros_like == 0", odense(Z, up="x{}", low="y{}"), np.zeros((3 ** L, 3 ** L)))
+    x = qtn.MPS_computational_state("01+-"[:L] if L <= 4 else "0" * L)
+    num_eq(mk, "MPO_identity.apply(x) == x", _flat(vdense(qtn.MPO_identity(L).apply(x))), _flat(vdense(x)))
+    mk.raises("identity on a single site (start == end) is rejected", lambda: qtn.MPO_identity(1), (ValueError,))
+
+
+@obligation(PROP, params=[{"Ltot": 5, "sites": (1, 3)}, {"Ltot": 4, "sites": (0, 1, 2), "_tiers": _T}], numeric=False)
+def identity_on_site_subset(mk, Ltot, sites):
+    """MPO_identity(L, sites=...): identity defined on a subset of the sites of a chain of length L"""
+    mk.encodes(tb.MPO_identity)
+    I = qtn.MPO_identity(Ltot, sites=sites)
+    mk.same("sites present", tuple(I.gen_sites_present()), tuple(sites))
+    num_eq(mk, "value on the sites present == identity", odense(I, sites=sites), np.eye(2 ** len(sites)))
+    mk.same("L is the requested number of sites", I.L, Ltot)
+    F = attempt(mk, "fill_empty_sites('full') of the sub-identity", lambda: I.fill_empty_sites("full"))
+    if F is not None:
+        mk.same("filled identity covers the whole chain", tuple(F.gen_sites_present()), tuple(range(Ltot)))
+
+
+# ====================================================================================
+# 4. 1D compression
+# ====================================================================================
+
+def _compress_input(mk, inp, L, ekind="real"):
+    """(network to compress, dense value, output labels as a flat tuple, kind 'vec' / 'op')"""
+    if inp == "mps":
+        a, Ar = sym_mps(mk, "A", L, 2, None, False, ekind)
+        return a, raw_vec(Ar), tuple(f"k{i}" for i in range(L)), "vec"
+    if inp == "sum":          # two product states: bond dimension 1 + 1
+        a, Ar = sym_mps(mk, "A", L, 1, None, False, ekind)
+        b, Br = sym_mps(mk, "B", L, 1, None, False, ekind)
+        return a + b, raw_vec(Ar) + raw_vec(Br), tuple(f"k{i}" for i in range(L)), "vec"
+    if inp in ("op1.vec2", "op2.vec1", "op2.vec2"):   # two-layer network: operator on state, not contracted
+        Do, Dv = int(inp[2]), int(inp[7])
+        O, Or = sym_mpo(mk, "O", L, Do, None, False, ekind)
+        x, Xr = sym_mps(mk, "X", L, Dv, None, False, ekind)
+        tn = O.apply(x, contract=False)
+        want = ref.matmul(raw_op(Or), _flat(raw_vec(Xr))).reshape((2,) * L)
+        return tn, want, tuple(f"k{i}" for i in range(L)), "vec"
+    if inp == "mpo":
+        O, Or = sym_mpo(mk, "O", L, 2, None, False, ekind)
+        want = raw_op(Or).reshape((2,) * (2 * L))
+        return O, want, tuple(f"k{i}" for i in range(L)) + tuple(f"b{i}" for i in range(L)), "op"
+    raise ValueError(inp)
+
+
+def _structure_goals(mk, tag, c, L, out, kind, layered_input=False):
+    mk.same(f"{tag}: result type", type(c) is (qtn.MatrixProductState if kind == "vec" else qtn.MatrixProductOperator), True)
+    mk.same(f"{tag}: same outer labels", set(c.outer_inds()), set(out))
+    mk.same(f"{tag}: exactly one tensor per site", [len(c.select_tensors(f"I{i}")) for i in range(L)] + [c.num_tensors], [1] * L + [L])
+    nn = True
+    for i in range(L):
+        for j in range(i + 1, L):
+            nb = len(c[i].bonds(c[j]))
+            nn = nn and (nb == 1 if j == i + 1 else nb == 0)
+    mk.same(f"{tag}: single bonds between nearest neighbours only", nn, True)
+    if nn and kind == "vec":
+        want = []
+        for i in range(L):
+            ix = []
+            if i > 0:
+                ix.append(c.bond(i - 1, i))
+            if i < L - 1:
+                ix.append(c.bond(i, i + 1))
+            want.append(tuple(ix) + (f"k{i}",))
+        mk.same(f"{tag}: arrays stored in the default (left, right, physical) order", [tuple(c[i].inds) for i in range(L)], want)
+
+
+_DIRECT = ("direct", "dm", "zipup")
+# inputs per method.  Sums of product states have block-diagonal site tensors: the structural zeros turn the QR contracts
+# into relations the certificate search cannot orient (the generic bond-2 state 'mps' subsumes them: the identity is proved
+# for every value of the entries); the eigh-based 'dm' route certifies them directly.
+_EXACT_INPUTS = {"direct": ("mps", "op1.vec2", "op2.vec1", "mpo"), "zipup": ("mps", "op1.vec2", "op2.vec1", "mpo"),
+                 "dm": ("mps", "sum", "op1.vec2", "op2.vec1"), "zipup-first": ("mps",), "zipup-oversample": ("mps",), "sdc": ("mps",)}
+_EXACT = []
+for m_, inputs_ in _EXACT_INPUTS.items():
+    for inp_ in inputs_:
+        for rev_ in (False, True):
+            quick = m_ in _DIRECT and (inp_ == "mps" or (inp_ in ("sum", "op1.vec2") and not rev_ and m_ != "dm"))
+            if m_ == "zipup-oversample" and rev_:
+                continue
+            _EXACT.append({"method": m_, "inp": inp_, "L": 3, "reverse": rev_, "_tiers": _Q if quick else _T})
+_EXACT += [{"method": m_, "inp": "mps", "L": 4, "reverse": False, "_tiers": _T} for m_ in ("direct", "zipup")]
+_EXACT += [{"method": m_, "inp": "mps", "L": 2, "reverse": True, "_tiers": _T} for m_ in _DIRECT]
+
+
+@obligation(PROP, params=_EXACT, rounds=2, timeout_s=600, max_rows=60000, wall_s=500)
+def compress_exact(mk, method, inp, L, reverse):
+    """tensor_network_1d_compress(cutoff=0, max_bond=None): nothing needs truncating -> value reproduced, one tensor per
+    site, promised canonical form (right; left with sweep_reverse)"""
+    mk.encodes(cp.tensor_network_1d_compress, cp._TN1D_COMPRESS_METHODS[method], cp.enforce_1d_like, cp._form_final_tn_from_tensor_sequence,
+               cp.possibly_permute_, tc.TensorNetwork.compress_between, tc.TensorNetwork.canonize_between, tc.tensor_compress_bond,
+               tc.tensor_canonize_bond)
+    tn, want, out, kind = _compress_input(mk, inp, L)
+    if method in ("dm",):
+        stubs.OPTIONS["eigh_spectrum"] = "pos"
+    try:
+        with warnings.catch_warnings():
+            warnings.simplefilter("ignore")
+            c = cp.tensor_network_1d_compress(tn, max_bond=None, cutoff=0.0, method=method, sweep_reverse=reverse)
+    finally:
+        stubs.OPTIONS["eigh_spectrum"] = "real"
+    tag = f"{method}{'/reverse' if reverse else ''}"
+    _structure_goals(mk, tag, c, L, out, kind)
+    mk.eq(f"{tag}: dense value reproduced", ref.tn_dense(c, out), want)
+    canonical_goals(mk, tag, c, "left" if reverse else "right", L)
+    mk.eq(f"{tag}: input untouched", ref.tn_dense(tn, out), want)
+
+
+def _discarded(mk, method):
+    """sum of the squared singular values (eigenvalues of the reduced density matrix for 'dm') the decomposition stubs
+    handed out beyond the first one, over every decomposition made on this path (symbolic mode)"""
+    fams = _stub_syms("w" if method == "dm" else "s")
+    tot = P.ZERO
+    for k, vals in fams.items():
+        if method == "dm":
+            for v in vals[:-1]:        # eigh: ascending order, the largest (last) one is kept
+                tot = tot + v
+        else:
+            for v in vals[1:]:         # svd: descending order, the first one is kept
+                tot = tot + v * v
+    return tot, {k: len(v) for k, v in fams.items()}
+
+
+def _sequential_truncation_ref(psi, reverse):
+    """plain numpy reference for a bond-1 sweep: truncate one cut after the other (right to left; left to right if
+    `reverse`) to the leading singular triplet; returns (truncated state, sum of the discarded squared singular values)"""
+    L = psi.ndim
+    cur = np.asarray(psi, dtype=float)
+    disc = 0.0
+    cuts = range(L - 1, 0, -1) if not reverse else range(1, L)
+    for cut in cuts:
+        M = cur.reshape(int(np.prod(cur.shape[:cut])), -1)
+        U, s, VH = np.linalg.svd(M, full_matrices=False)
+        disc += float(np.sum(s[1:] ** 2))
+        cur = (s[0] * np.outer(U[:, 0], VH[0])).reshape(cur.shape)
+    return cur, disc
+
+
+_CAP = []
+for m_ in _DIRECT:
+    for L_ in (2, 3):
+        for rev_ in (False, True):
+            _CAP.append({"method": m_, "L": L_, "reverse": rev_, "_tiers": _Q if (L_ == 2 or (not rev_ and m_ == "direct")) else _T})
+
+
+@obligation(PROP, params=_CAP, rounds=2, rounds2=3, timeout_s=600, max_rows=60000, wall_s=500)
+def compress_capped(mk, method, L, reverse):
+    """tensor_network_1d_compress(max_bond=1, cutoff=0) of a bond-2 state: cap respected, canonical form, and
+    ||psi - psi'||^2 == sum of the squared singular values discarded along the sweep (canonical methods)"""
+    mk.encodes(cp.tensor_network_1d_compress, cp._TN1D_COMPRESS_METHODS[method], tc.tensor_compress_bond, tc.tensor_split)
+    a, Ar = sym_mps(mk, "A", L, 2, None, False, "real")
+    va = raw_vec(Ar)
+    if method == "dm":
+        stubs.OPTIONS["eigh_spectrum"] = "pos"
+    try:
+        c = cp.tensor_network_1d_compress(a, max_bond=1, cutoff=0.0, method=method, sweep_reverse=reverse)
+    finally:
+        stubs.OPTIONS["eigh_spectrum"] = "real"
+    tag = f"{method}{'/reverse' if reverse else ''} max_bond=1"
+    _structure_goals(mk, tag, c, L, tuple(f"k{i}" for i in range(L)), "vec")
+    mk.same(f"{tag}: bond cap respected", c.max_bond() <= 1, True)
+    canonical_goals(mk, tag, c, "left" if reverse else "right", L)
+    vc = vdense(c)
+    diff = _flat(va - vc)
+    err2 = _sum(x * x for x in diff)
+    if mk.sym:
+        disc, fams = _discarded(mk, method)
+        mk.same(f"{tag}: one truncating decomposition per bond", sorted(fams.values()), [2] * (L - 1))
+        mk.eq(f"{tag}: ||psi - psi'||^2 == sum of discarded squared singular values", err2, disc)
+    else:
+        refstate, disc = _sequential_truncation_ref(va, reverse)
+        mk.eq(f"{tag}: ||psi - psi'||^2 == sum of discarded squared singular values", err2, disc, tol=1e-9)
+        mk.eq(f"{tag}: result == sequential best rank-1 truncation (plain numpy)", vc, refstate, tol=1e-8)
+        s_orig = [np.linalg.svd(np.asarray(va, dtype=float).reshape(2 ** k, -1), compute_uv=False) for k in range(1, L)]
+        bound = sum(float(np.sum(s[1:] ** 2)) for s in s_orig)
+        mk.same(f"{tag}: error within the bound from the singular values of the original state", bool(float(err2) <= bound * (1 + 1e-9) + 1e-14), True)
+
+
+# ---------------------------------------------------------------------- compression methods of the MPS / MPO classes
+
+_FORMS = [("right", 3), ("left", 3), (None, 3), (1, 3), (0, 3), (2, 3), ("flat", 3), ("left", 4), (2, 4), ("right", 2)]
+
+
+@obligation(PROP, params=[{"form": f, "L": L, "what": w, "_tiers": _Q if (L == 3 and w == "mps" and f in ("right", "left", 1, "flat")) else _T}
+                          for (f, L) in _FORMS for w in ("mps", "mpo") if not (w == "mpo" and (L != 3 or f in (0, 2, None)))],
+            rounds=2, timeout_s=600, max_rows=60000, wall_s=500)
+def class_compress(mk, form, L, what):
+    """MatrixProductState.compress / MatrixProductOperator.compress(form, cutoff=0): value unchanged, promised form"""
+    mk.encodes(c1.TensorNetwork1DFlat.compress, c1.TensorNetwork1DFlat.left_compress, c1.TensorNetwork1DFlat.right_compress,
+               c1.TensorNetwork1DFlat.left_compress_site, c1.TensorNetwork1DFlat.right_compress_site,
+               c1.TensorNetwork1DFlat.left_canonicalize, c1.TensorNetwork1DFlat.right_canonicalize, tc.tensor_compress_bond)
+    tn, want, out, kind = _compress_input(mk, what, L)
+    c = tn.copy()
+    r = c.compress(form=form, cutoff=0.0)
+    mk.same("in place, returns None", r is None, True)
+    tag = f"compress(form={form})"
+    _structure_goals(mk, tag, c, L, out, kind)
+    mk.eq(f"{tag}: dense value unchanged", ref.tn_dense(c, out), want)
+    if form != "flat":
+        canonical_goals(mk, tag, c, "right" if form is None else form, L)
+    mk.raises("unknown form rejected", lambda: tn.copy().compress(form="middle"), (ValueError,))
+
+
+@obligation(PROP, params=[{"which": w, "L": 3} for w in ("left_compress", "right_compress", "compress_site")]
+            + [{"which": w, "L": 4, "_tiers": _T} for w in ("left_compress", "right_compress", "compress_site")],
+            rounds=2, timeout_s=600, max_rows=60000, wall_s=500)
+def sweep_compress(mk, which, L):
+    """left_compress / right_compress / compress_site with cutoff=0 on an arbitrary (non canonical) state"""
+    mk.encodes(c1.TensorNetwork1DFlat.left_compress, c1.TensorNetwork1DFlat.right_compress, c1.TensorNetwork1DFlat.compress_site,
+               tc.tensor_compress_bond)
+    a, Ar = sym_mps(mk, "A", L, 2, None, False, "real")
+    va = raw_vec(Ar)
+    out = tuple(f"k{i}" for i in range(L))
+    c = a.copy()
+    if which == "left_compress":
+        c.left_compress(cutoff=0.0)
+        mk.eq("left_compress: value unchanged", vdense(c), va)
+        canonical_goals(mk, "left_compress", c, "left", L)      # documented: becomes left-canonical
+        c2 = a.copy()
+        c2.left_compress(start=0, stop=1, cutoff=0.0)
+        mk.eq("left_compress(start=0, stop=1): value unchanged", vdense(c2), va)
+        (b,) = c2[0].bonds(c2[1])
+        iso_goal(mk, "left_compress(stop=1): site 0 left-isometric", c2[0], tuple(i for i in c2[0].inds if i != b))
+    elif which == "right_compress":
+        c.right_compress(cutoff=0.0)
+        mk.eq("right_compress: value unchanged", vdense(c), va)
+        canonical_goals(mk, "right_compress", c, "right", L)
+        c2 = a.copy()
+        c2.right_compress(start=L - 1, stop=L - 2, cutoff=0.0)
+        mk.eq("right_compress(start=L-1, stop=L-2): value unchanged", vdense(c2), va)
+        (b,) = c2[L - 1].bonds(c2[L - 2])
+        iso_goal(mk, "right_compress(stop=L-2): last site right-isometric", c2[L - 1], tuple(i for i in c2[L - 1].inds if i != b))
+    else:
+        info = {"cur_orthog": None}
+        c.compress_site(1, info=info, cutoff=0.0)
+        mk.eq("compress_site(1): value unchanged", vdense(c), va)
+        mk.same("compress_site(1): recorded centre", info["cur_orthog"], (1, 1))
+        canonical_goals(mk, "compress_site(1)", c, 1, L)
+    _structure_goals(mk, which, c, L, out, "vec")
+
+
+# 'add' / 'add_mpo': the summed tensors are block diagonal; the structural zeros keep the QR contracts from being oriented by
+# the certificate search (see _EXACT_INPUTS) -> not mandatory, thorough tier, numeric cross-run still applies.  The two
+# halves are certified separately: the sum (mps_arithmetic, Q-ID) and compress() of an arbitrary bond-2 chain (class_compress).
+@obligation(PROP, params=[{"case": c} for c in ("apply_vec", "apply_op")]
+            + [{"case": c, "_tiers": _T, "_mandatory": False} for c in ("add", "add_mpo")],
+            rounds=2, timeout_s=600, max_rows=60000, wall_s=500)
+def arithmetic_with_compress(mk, case):
+    """compress=True options of the sum / apply routines with cutoff=0: same value as the uncompressed result"""
+    mk.encodes(ag.tensor_network_ag_sum, ag.tensor_network_apply_op_vec, ag.tensor_network_apply_op_op, c1.TensorNetwork1DFlat.compress)
+    L = 3
+    if case == "add":
+        a, Ar = sym_mps(mk, "A", L, 1, None, False, "real")
+        b, Br = sym_mps(mk, "B", L, 2, None, False, "real")
+        c = a.add_MPS(b, compress=True, cutoff=0.0)
+        want, out, kind = raw_vec(Ar) + raw_vec(Br), tuple(f"k{i}" for i in range(L)), "vec"
+    elif case == "add_mpo":
+        a, Ar = sym_mpo(mk, "A", L, 1, None, False, "real")
+        b, Br = sym_mpo(mk, "B", L, 1, None, False, "real")
+        c = a.add_MPO(b, compress=True, cutoff=0.0)
+        want, out, kind = (raw_op(Ar) + raw_op(Br)).reshape((2,) * (2 * L)), tuple(f"k{i}" for i in range(L)) + tuple(f"b{i}" for i in range(L)), "op"
+    elif case == "apply_vec":
+        O, Or = sym_mpo(mk, "O", L, 1, None, False, "real")
+        x, Xr = sym_mps(mk, "X", L, 2, None, False, "real")
+        c = O.apply(x, compress=True, cutoff=0.0)
+        want, out, kind = ref.matmul(raw_op(Or), _flat(raw_vec(Xr))).reshape((2,) * L), tuple(f"k{i}" for i in range(L)), "vec"
+    else:
+        O, Or = sym_mpo(mk, "O", L, 1, None, False, "real")
+        Q, Qr = sym_mpo(mk, "Q", L, 2, None, False, "real")
+        c = O.apply(Q, compress=True, cutoff=0.0)
+        want, out, kind = ref.matmul(raw_op(Or), raw_op(Qr)).reshape((2,) * (2 * L)), tuple(f"k{i}" for i in range(L)) + tuple(f"b{i}" for i in range(L)), "op"
+    _structure_goals(mk, case, c, L, out, kind)
+    mk.eq(f"{case}(compress=True, cutoff=0): dense value", ref.tn_dense(c, out), want)
+    canonical_goals(mk, f"{case}(compress=True)", c, "right", L)     # compress() defaults to the right canonical form
+
+
+_GATE = [{"entry": e, "_tiers": _Q if e in ("gate_with_mpo:direct", "mps_gate_with_mpo_zipup") else _T}
+         for e in ("gate_with_mpo:direct", "gate_with_mpo:dm", "gate_with_mpo:zipup", "gate_with_mpo:zipup-first", "gate_with_mpo:direct:transpose",
+                   "mps_gate_with_mpo_direct", "mps_gate_with_mpo_dm", "mps_gate_with_mpo_zipup", "mps_gate_with_mpo_zipup_first")]
+
+
+@obligation(PROP, params=_GATE, rounds=2, timeout_s=600, max_rows=60000, wall_s=500)
+def gate_with_mpo_entry_points(mk, entry):
+    """MPO applied to an MPS and compressed back (cutoff=0) through the MPS-level entry points"""
+    mk.encodes(c1.MatrixProductState.gate_with_mpo, cp.mps_gate_with_mpo_direct, cp.mps_gate_with_mpo_dm, cp.mps_gate_with_mpo_zipup,
+               cp.mps_gate_with_mpo_zipup_first, cp.mps_gate_with_mpo_lazy, cp.tensor_network_1d_compress)
+    L = 3
+    O, Or = sym_mpo(mk, "O", L, 1, None, False, "real")
+    x, Xr = sym_mps(mk, "X", L, 2, None, False, "real")
+    MO, vx = raw_op(Or), _flat(raw_vec(Xr))
+    out = tuple(f"k{i}" for i in range(L))
+    if "dm" in entry:
+        stubs.OPTIONS["eigh_spectrum"] = "pos"
+    try:
+        with warnings.catch_warnings():
+            warnings.simplefilter("ignore")
+            if entry.startswith("gate_with_mpo:"):
+                parts = entry.split(":")
+                tr = len(parts) > 2
+                y = x.gate_with_mpo(O, method=parts[1], transpose=tr, cutoff=0.0)
+                want = ref.matmul(MO.T if tr else MO, vx)
+            else:
+                y = getattr(cp, entry)(x, O, cutoff=0.0)
+                want = ref.matmul(MO, vx)
+    finally:
+        stubs.OPTIONS["eigh_spectrum"] = "real"
+    _structure_goals(mk, entry, y, L, out, "vec")
+    mk.eq(f"{entry}: dense value == A @ x", _flat(vdense(y)), want)
+    canonical_goals(mk, entry, y, "right", L)
+    mk.eq(f"{entry}: state untouched", _flat(vdense(x)), vx)
+    mk.eq(f"{entry}: operator untouched", odense(O), MO)
+
+
+# ---------------------------------------------------------------------- iterative / randomised methods: numeric cross-run only
+
+_ITER = ["fit", "fit-zipup", "fit-projector", "fit-oversample", "src", "src-oversample", "srcmps", "srcmps-oversample", "sdc", "sdc-oversample",
+         "zipup-oversample", "projector", "local-early"]
+
+
+@obligation(PROP, params=[{"method": m, "_tiers": _Q if m in ("fit", "src", "sdc-oversample") else _T} for m in _ITER], num_trials=2, numeric_required=True)
+def compress_iterative_numeric(mk, method):
+    """NUMERIC ONLY (no symbolic claim): iterative / randomised methods reproduce the input to 1e-4 when the cap is not
+    binding and never exceed a binding cap.  The symbolic run only records that the dispatcher knows the method."""
+    mk.encodes(cp.tensor_network_1d_compress)
+    if mk.sym:
+        from quimb.tensor.tnag.compress import _TNAG_COMPRESS_METHODS as _AG  # noqa
+        mk.same(f"method '{method}' is known to a dispatcher", method in cp._TN1D_COMPRESS_METHODS or method in _AG, True)
+        mk.note("iterative / randomised method: numeric cross-run only")
+        return
+    L = 4
+    O, Or = sym_mpo(mk, "O", L, 2, None, False, "real")
+    x, Xr = sym_mps(mk, "X", L, 2, None, False, "real")
+    tn = O.apply(x, contract=False)
+    want = ref.matmul(raw_op(Or), _flat(raw_vec(Xr)))
+    out = tuple(f"k{i}" for i in range(L))
+    with warnings.catch_warnings():
+        warnings.simplefilter("ignore")
+        c = cp.tensor_network_1d_compress(tn, max_bond=4, cutoff=0.0, method=method)
+        c1_ = cp.tensor_network_1d_compress(tn, max_bond=1, cutoff=0.0, method=method)
+    _structure_goals(mk, method, c, L, out, "vec")
+    mk.same(f"{method}: max_bond=4 respected", c.max_bond() <= 4, True)
+    mk.eq(f"{method}: value reproduced when the cap is not binding", _flat(vdense(c)), want, tol=1e-4)
+    mk.same(f"{method}: max_bond=1 respected", c1_.max_bond() <= 1, True)
+    _structure_goals(mk, f"{method} max_bond=1", c1_, L, out, "vec")
